@@ -48,7 +48,6 @@ class PointsTo:
         self.objs = {}          # id(node) -> Obj
         self.fields = {}        # attribute of self -> set(Obj)
         self.locals = {}        # (method, name) -> set(Obj)
-        self.unknown_stores = []  # (method, target text, value text, line)
         self.changed = True
         self.counts = {}
         self.hint = None        # text of the assignment target while its value is evaluated (names the allocation site)
